@@ -93,9 +93,9 @@ def lookup (g : Mon) (n : Nat) : Option Doc := (g.map.find? (fun e => e.1 == n))
 def plainOne (g : Mon) (op : Op) : Except String Mon :=
   match op with
   | .set n u h ts =>
-    if u > 200 then .error "uri_too_long"
+    if u > 200 then .error "limit.set_document.uri"
     else if (lookup g n).isSome then .ok { g with map := g.map.map (fun e => if e.1 == n then (n, ⟨u, h, ts⟩) else e) }
-    else if g.map.length ≥ 5000 then .error "limit.documents"
+    else if g.map.length ≥ 5000 then .error "limit.set_document.documents"
     else .ok { g with map := g.map ++ [(n, ⟨u, h, ts⟩)] }
   | .remove n => if (lookup g n).isSome then .ok { g with map := g.map.filter (fun e => e.1 ≠ n) } else .error "absent"
 
@@ -126,12 +126,14 @@ def check (g : Mon) (opl obs : String) : Mon × Option String :=
     -- a `fill` commits the accepted prefix ops one by one
     let (gP, allOk, firstWhy, nearLimit) := (cmdOps c).foldl (fun (acc : Mon × Bool × String × Bool) op =>
       match plainOne acc.1 op with
-      | .ok g' => (g', acc.2.1, acc.2.2.1, acc.2.2.2 || acc.1.map.length = 4999)
+      | .ok g' => (g', acc.2.1, acc.2.2.1, acc.2.2.2 || (acc.1.map.length = 4999 ∧ g'.map.length = 5000))
       | .error why => (acc.1, false, (if acc.2.1 then why else acc.2.2.1), acc.2.2.2)) (g, true, "", false)
     let accept : Option String :=
       if ok = allOk then none
-      else if ok then some s!"site=docs.{firstWhy}_accepted the document manager accepted an operation the plain map refuses ({firstWhy})"
-      else some s!"site=docs.{if nearLimit then "limit.documents" else "valid"}_refused the document manager refused an operation the plain map (with its documented limits) accepts"
+      else if ok then some (acceptedSite "docs" firstWhy)
+      else some (refusedSite "docs" (if nearLimit then "limit.set_document.documents"
+                                    else if (cmdOps c).any (fun o => match o with | .set _ u _ _ => u = 200 | _ => false)
+                                    then "limit.set_document.uri" else "valid"))
     let g2 := gP
     let n := kvN ws "n"
     let listS := kvS ws "list"
